@@ -157,6 +157,70 @@ pub fn run_obs(op: &str, step: &Value, regs: &Regs, ctx: &mut Ctx, keys: &crate:
                 Err(er) => json!(["err", err_kind(&er)]),
             };
             m.insert("optional_assertion_with_predicate".into(), opt);
+            // the typed lookup variants must agree with the untyped ones (value or error, never another value)
+            {
+                let objs = e.objects_for_predicate(mk());
+                // typed through TryFrom<Envelope> (String): all values or an error, never another value
+                if let Ok(v) = e.try_objects_for_predicate::<String>(mk()) {
+                    if v.len() != objs.len() {
+                        return Err("try_objects_for_predicate returned a different number of values".into());
+                    }
+                    for (x, y) in v.iter().zip(objs.iter()) {
+                        let c: dcbor::CBOR = x.clone().into();
+                        if y.as_leaf().map(|l| l.to_cbor_data()) != Some(c.to_cbor_data()) {
+                            return Err("try_objects_for_predicate::<String> returned another value".into());
+                        }
+                    }
+                }
+                let one = e.object_for_predicate(mk());
+                if let Ok(x) = e.try_object_for_predicate::<String>(mk()) {
+                    let c: dcbor::CBOR = x.into();
+                    if one.as_ref().ok().and_then(|o| o.as_leaf()).map(|l| l.to_cbor_data()) != Some(c.to_cbor_data()) {
+                        return Err("try_object_for_predicate::<String> returned another value".into());
+                    }
+                }
+                match (e.optional_object_for_predicate(mk()), e.try_optional_object_for_predicate::<String>(mk())) {
+                    (Ok(None), Ok(Some(_))) | (Ok(None), Err(_)) => return Err("try_optional_object_for_predicate disagrees on an absent predicate".into()),
+                    (Ok(Some(o)), Ok(Some(x))) => {
+                        let c: dcbor::CBOR = x.into();
+                        if o.as_leaf().map(|l| l.to_cbor_data()) != Some(c.to_cbor_data()) {
+                            return Err("try_optional_object_for_predicate::<String> returned another value".into());
+                        }
+                    }
+                    (Ok(Some(_)), Ok(None)) => return Err("try_optional_object_for_predicate lost a present object".into()),
+                    (Err(_), Ok(_)) => return Err("try_optional_object_for_predicate ignored an ambiguous predicate".into()),
+                    _ => {}
+                }
+                // extraction of the object(s): a value whose re-encoding is the stored leaf, or an error
+                if let Ok(o) = &one {
+                    if let Some(c) = o.subject().as_leaf() {
+                        if let Ok(sv) = e.extract_object_for_predicate::<String>(mk()) {
+                            let cc: dcbor::CBOR = sv.into();
+                            if cc.to_cbor_data() != c.to_cbor_data() {
+                                return Err("extract_object_for_predicate::<String> returned another value".into());
+                            }
+                        }
+                        let with_default = e.extract_object_for_predicate_with_default::<String>(mk(), "~default~".to_string());
+                        if let Ok(sv) = with_default {
+                            if sv == "~default~" {
+                                return Err("extract_object_for_predicate_with_default returned the default for a present predicate".into());
+                            }
+                        }
+                    }
+                }
+                if e.assertions_with_predicate(mk()).is_empty() {
+                    match e.extract_object_for_predicate_with_default::<String>(mk(), "~default~".to_string()) {
+                        Ok(sv) if sv == "~default~" => {}
+                        other => return Err(format!("extract_object_for_predicate_with_default on an absent predicate: {:?}", other.map_err(|x| x.to_string()))),
+                    }
+                }
+                let many = e.extract_objects_for_predicate::<String>(mk());
+                if let Ok(v) = many {
+                    if v.len() != objs.len() {
+                        return Err("extract_objects_for_predicate returned a different number of values".into());
+                    }
+                }
+            }
             Value::Object(m)
         }
         "obs_extract" => {
